@@ -14,6 +14,7 @@ REGISTRY = {
     "C20": ("props_dataclient", "check_C20"),
     "C19": ("props_stochasticnet", "check_C19"),
     "C12": ("props_currents", "check_C12"),
+    "C17": ("props_tariff", "check_C17"),
 }
 
 
